@@ -1,4 +1,4 @@
-SPECIFICATION GSpec
+SPECIFICATION HSpec
 CONSTANTS
   ArgPaths <- PathsF
   OpenFlags <- AllFlags
@@ -13,4 +13,4 @@ CONSTANTS
 INVARIANTS EmitState TreeOK
 PROPERTIES RenameIntoOwnSubtreeFails RootIsFixed FailureIsNoop
 CHECK_DEADLOCK FALSE
-VIEW view
+VIEW hview
